@@ -19,7 +19,7 @@ pub struct DupCase {
     pub pool: Vec<ContentSpec>,
     pub internal: u8,
     /// blocks: (first id gap, pattern kind, length, content selectors a/b)
-    pub blocks: Vec<(u32, u8, u32, u16, u16)>,
+    pub blocks: Vec<(u64, u8, u32, u16, u16)>,
     pub first_id: u64,
     pub order_seed: u32,
     pub asyncw: bool,
@@ -125,7 +125,7 @@ fn check_dup(c: &DupCase) -> CaseResult {
     // a content equal to a reader-backed tile's content (mixture clause)
     let backed: Vec<Vec<u8>> = r.model.values().take(3).cloned().collect();
     for (gap, kind, len, a, b) in &c.blocks {
-        id = id.saturating_add(u64::from(*gap));
+        id = id.saturating_add(*gap);
         let ca = r.contents[pick(*a, r.contents.len())].clone();
         let cb = r.contents[pick(*b, r.contents.len())].clone();
         for k in 0..u64::from(*len) {
@@ -224,7 +224,7 @@ fn dup_strategy(max_block: u16, foreign_entries: usize) -> impl Strategy<Value =
             Init::Foreign(l, a)
         }),
     ];
-    let block = (prop_oneof![3 => Just(0u32), 2 => 1u32..3, 1 => 3u32..50_000], 0u8..5, 1u32..=u32::from(max_block), any::<u16>(), any::<u16>());
+    let block = (prop_oneof![6 => Just(0u64), 4 => 1u64..3, 2 => 3u64..50_000, 1 => (1u64..4, 0u64..3).prop_map(|(k, d)| (k << 32) + d), 1 => (0u64..3).prop_map(|d| (1u64 << 31) + d)], 0u8..5, 1u32..=u32::from(max_block), any::<u16>(), any::<u16>());
     (init, crate::model::content::pool(6, false, false), 1u8..=4, proptest::collection::vec(block, 1..6), prop_oneof![2 => 0u64..50, 1 => 0u64..(1 << 40)], any::<u32>(), any::<bool>())
         .prop_map(|(init, pool, internal, blocks, first_id, order_seed, asyncw)| DupCase { init, pool, internal, blocks, first_id, order_seed, asyncw, reopen: order_seed % 3 == 0 })
 }
@@ -248,7 +248,7 @@ pub fn run(ctx: &Ctx) {
                 init: Init::Empty(k % 2 == 1),
                 pool: vec![ContentSpec { kind: 2, len: 20, seed: 5 }, ContentSpec { kind: 0, len: 7, seed: 9 }],
                 internal: 1 + (k % 4) as u8,
-                blocks: vec![(0, 0, *n, 0, 0), (3, 1, 5, 0, 40_000)],
+                blocks: vec![(0, 0, *n, 0, 0), (3, 1, 5, 0, 40_000), ((1u64 << 32) + 1, 0, 2, 0, 0), (1u64 << 32, 0, 1, 0, 0)],
                 first_id: 1000,
                 order_seed: 0,
                 asyncw: k % 2 == 1,
